@@ -275,15 +275,17 @@ func (t *tree) parsePrint(token item) ast.Node {
 // Aliases are applied at immediately (at parse time) to new nodes.
 // "alias" has just been read.
 func (t *tree) parseAlias(token item) {
-	var name = t.expect(itemIdent, "alias").val
-	var lastSegment = name
+	// (the segments are joined once: appending them one by one would copy the
+	// name so far for every segment.)
+	var segments = []string{t.expect(itemIdent, "alias").val}
+	var lastSegment = segments[0]
 	for {
 		switch next := t.next(); next.typ {
 		case itemDotIdent:
-			name += next.val
+			segments = append(segments, next.val)
 			lastSegment = next.val[1:]
 		case itemRightDelim:
-			t.aliases[lastSegment] = name
+			t.aliases[lastSegment] = strings.Join(segments, "")
 			return
 		default:
 			t.unexpected(next, "alias. (expected '}')")
@@ -338,10 +340,11 @@ func (t *tree) parseCall(token item) ast.Node {
 		// this ident could either be {call fully.qualified.name} or attributes.
 		switch tok2 := t.next(); tok2.typ {
 		case itemDotIdent:
-			templateName = tok.val + tok2.val
+			var segments = []string{tok.val, tok2.val}
 			for tokn := t.next(); tokn.typ == itemDotIdent; tokn = t.next() {
-				templateName += tokn.val
+				segments = append(segments, tokn.val)
 			}
+			templateName = strings.Join(segments, "")
 			t.backup()
 		default:
 			t.backup2(tok)
@@ -764,13 +767,14 @@ func (t *tree) parseNamespace(token item) ast.Node {
 		t.errorf("file may have only one namespace declaration")
 	}
 	const ctx = "namespace"
-	var name = t.expect(itemIdent, ctx).val
+	var segments = []string{t.expect(itemIdent, ctx).val}
 	for {
 		switch part := t.next(); part.typ {
 		case itemDotIdent:
-			name += part.val
+			segments = append(segments, part.val)
 		default:
 			t.backup()
+			var name = strings.Join(segments, "")
 			var autoescape = t.parseAutoescape(t.parseAttrs("autoescape"))
 			t.expect(itemRightDelim, ctx)
 			t.namespace = name
